@@ -11,7 +11,9 @@ from vf.xmodel import Schema, Rop, build_api, build_loader
 SHARDS = {'quick': 16, 'thorough': 32}
 TIMEOUT = {'quick': 900, 'thorough': 5400}
 MUST_HIT = ['IdFresh.instance-attribute', 'Generator.user-source-sequence', 'Generator.swapped', 'ArgModel.creation', 'IdFresh.defaulted-id', 'IdFresh.generator-next', 'Generator.peek',
-            'Generator.integer-sequence', 'UnknownType.rejected', 'Referential.argument']
+            'Generator.integer-sequence', 'UnknownType.rejected', 'Referential.argument',
+            'Schema.association-formalized-after-creations', 'Schema.attribute-replaced',
+            'Schema.attribute-added', 'Schema.attribute-removed']
 MUST_REACH = ['xtuml/meta.py:MetaClass.default_value', 'xtuml/meta.py:MetaClass.new',
               'xtuml/tools.py:IdGenerator.peek', 'xtuml/tools.py:IdGenerator.next',
               'xtuml/tools.py:UUIDGenerator.readfunc', 'xtuml/tools.py:IntegerGenerator.readfunc']
@@ -22,7 +24,7 @@ RULE = ('random schemas (1-3 classes, 1-7 attributes of the five core types in l
         'the API or the loader with a UUID, integer or user-supplied generator (random injective '
         'non-zero sequence); creation sequences of 5-40 instances with a random positional prefix, '
         'random keyword subset (random spelling) and the rest omitted, interleaved with peek()/next() '
-        'on the generator; in three of ten histories the metamodel\'s id_generator is replaced half-way. Non-trivial = the creation mixes at least two of positional / keyword / '
+        'on the generator; in three of ten histories the metamodel\'s id_generator is replaced half-way; half of the associations are defined and formalized only after instances exist, and between creations a class is edited now and then (attribute retyped or renamed in place, added, removed). Non-trivial = the creation mixes at least two of positional / keyword / '
         'defaulted attributes; distinct by hash of (schema, arguments).')
 ASSUMPTIONS = ['freshness is required among defaulted identifiers only (an explicit id may collide)',
                'user generators yield injective non-zero sequences']
@@ -105,6 +107,11 @@ def run_case(ctx, rng, n_case):
             attrs.insert(pos, ('Tgt_Id', spell(rng, 'UNIQUE_ID')))
             rops.append(Rop(c + 1, kind, ['Tgt_Id'], 'MC', '', 'Tgt', ['Id'], '1C', ''))
         classes.append((kind, attrs))
+    # some associations are formalized only after instances exist (what every loaded model does: instances
+    # first, associations formalized afterwards, further creations by the user after that); until then
+    # their key attribute is an ordinary id attribute
+    late = [r for r in rops if rng.random() < 0.5]
+    rops = [r for r in rops if r not in late]
     sch = Schema(classes, rops)
     route = rng.choice(('api', 'loader'))
     m = build_api(sch, gen) if route == 'api' else build_loader(sch, gen)
@@ -148,6 +155,49 @@ def run_case(ctx, rng, n_case):
             gkind = 'uuid' if gkind != 'uuid' else 'user'
             gen = make_generator(rng, gkind, log)
             m.id_generator = gen
+        if late and rng.random() < 0.12:
+            r = late.pop()
+            ctx.hit('Schema.association-formalized-after-creations')
+            ass = m.define_association(r.rel, r.src, list(r.src_keys), 'M' in r.src_card, 'C' in r.src_card,
+                                       r.src_phrase, r.tgt, list(r.tgt_keys), 'M' in r.tgt_card,
+                                       'C' in r.tgt_card, r.tgt_phrase)
+            ass.formalize()
+            sch.rops.append(r)
+            rops.append(r)
+        if rng.random() < 0.1:
+            # the class is edited between two creations (attribute retyped, renamed, added or removed):
+            # every later creation follows the attribute list of that moment
+            kind, attrs = rng.choice(classes[1:])
+            mc = m.find_metaclass(kind)
+            plain = [i for i, (a, ty) in enumerate(attrs) if a != 'Tgt_Id']
+            op = rng.choice(('retype', 'retype', 'rename', 'append', 'delete'))
+            if op == 'append' or not plain:
+                a = 'x%d' % i
+                ty = spell(rng, rng.choice(TYPES))
+                if rng.random() < 0.5:
+                    mc.append_attribute(a, ty)
+                    attrs.append((a, ty))
+                else:
+                    pos = rng.randint(0, len(attrs))
+                    mc.insert_attribute(pos, a, ty)
+                    attrs.insert(pos, (a, ty))
+                ctx.hit('Schema.attribute-added')
+            else:
+                pos = rng.choice(plain)
+                a, ty = attrs[pos]
+                if op == 'delete' and len(plain) > 1:
+                    mc.delete_attribute(a)
+                    del attrs[pos]
+                    ctx.hit('Schema.attribute-removed')
+                else:
+                    mc.delete_attribute(a)
+                    if op == 'rename':
+                        a = 'r%d' % i
+                    else:
+                        ty = spell(rng, rng.choice([t for t in TYPES if t != ty.upper()]))
+                    mc.insert_attribute(pos, a, ty)
+                    attrs[pos] = (a, ty)
+                    ctx.hit('Schema.attribute-replaced')
         k = rng.random()
         if k < 0.15:
             ctx.hit('Generator.peek')
